@@ -12,6 +12,28 @@ CHECKS = {
     {"pkg": "./client", "test": "TestC11", "shards": {"quick": 8, "thorough": 16}},
   ],
  },
+ "C10": {
+  "engine": "E-HIST",
+  "rule": "breadth-first search over Push/Pop histories of the real queue.Tagged, deduplicated on a digest of the queue's private state (group list, per-group file list with allocation, chain links) plus the reference model; non-trivial = at least two pushes and one pop; distinct = distinct digests",
+  "level": "All Push/Pop interleavings up to the depth bound are executed on the real queue and every Pop is compared with a reference model (sorted pending list, list of completed names); state space explored exhaustively up to the bound.",
+  "note": "Bounds: depth 8 (quick) / 11 (thorough), 5 files + placeholder + resumed file, 2 groups, chunk size 1. Ties on the ordering key (equal time stamps) accept either file. Deduplication assumes that the dumped private state determines the queue's future behaviour.",
+  "technique": "explicit-state breadth-first search over operation histories on the implementation, reference-model oracle",
+  "assumptions": ["files have 1-3 chunks; longer files only repeat the middle chunk", "state digest covers every field of queue.Tagged that Push/Pop read"],
+  "parts": [
+    {"pkg": "./queue", "test": "TestC10", "shards": {"quick": 12, "thorough": 16}},
+  ],
+ },
+ "C12": {
+  "engine": "E-HIST",
+  "rule": "breadth-first search over Push/Pop/clock-advance histories of the real queue.Tagged inside a synctest bubble, for every priority assignment; deduplicated on queue private state + reference model; non-trivial = at least two groups pushed and two pops; distinct = distinct digests",
+  "level": "All histories up to the depth bound, for every priority layout in the bound, are executed on the real queue; every Pop is checked against the ready set computed by a reference model (priority, rotation windows, last-file delay).",
+  "note": "Bounds: 3 groups (quick) / 3-4 groups (thorough), 2 priority levels (+2 layouts with 3), depth 8/10, <=2/3 files per group. Rotation is checked as: when a group is served again, every same-priority group that was ready at every Pop in between was served in between.",
+  "technique": "explicit-state breadth-first search over operation histories on the implementation, reference-model oracle",
+  "assumptions": ["the virtual clock of testing/synctest stands in for time.Now in the last-file delay"],
+  "parts": [
+    {"pkg": "./queue", "test": "TestC12", "shards": {"quick": 12, "thorough": 16}},
+  ],
+ },
 }
 
 NOT_APPLICABLE = {}
